@@ -21,8 +21,31 @@ def impl_case(case):
         _, desc, role, seq = case
         sp = init_spec(desc, seq, role)
         ev = sp.evaluate(FakeProblem(seq))
-        return spec_to_coq(sp), ev_out(ev), bool(ev.passes), type(sp).__name__, sp.best_possible_score, bool(ev.is_optimal)
+        term = spec_to_coq(sp)
+        if type(sp).__name__ == "HarmonizeRCA" and harmonize_float_tie(sp, seq):
+            term = "FLOAT_TIE"      # see harmonize_float_tie: not decidable by the exact model (DESIGN section 9)
+        return term, ev_out(ev), bool(ev.passes), type(sp).__name__, sp.best_possible_score, bool(ev.is_optimal)
     raise ValueError(k)
+
+
+def harmonize_float_tie(sp, seq):
+    """HarmonizeRCA reports a codon as non-optimal when `smallest possible discrepancy - discrepancy` is non
+    zero IN FLOATING POINT.  When another synonym's discrepancy differs from the codon's own by less than
+    the rounding of the two subtractions, the float difference is 0 although the exact values differ (or
+    conversely): the exact-rational model cannot exhibit that decision, the case is left to the L3 oracle."""
+    rca, rca_o = sp.codon_usage_table["RCA"], sp.original_codon_usage_table["RCA"]
+    codons = sp.get_codons(FakeProblem(seq))
+    for codon, orig in zip(codons, sp.original_codons):
+        try:
+            d_f = abs(rca_o[orig] - rca[codon])
+            sm_f = min(abs(rca[c] - rca_o[orig]) for c in sp.codons_synonyms[orig])
+            d_x = abs(Fraction(rca_o[orig]) - Fraction(rca[codon]))
+            sm_x = min(abs(Fraction(rca[c]) - Fraction(rca_o[orig])) for c in sp.codons_synonyms[orig])
+        except KeyError:
+            return False
+        if ((sm_f - d_f) == 0) != ((sm_x - d_x) == 0):
+            return True
+    return False
 
 
 def run_impl(case):
@@ -280,6 +303,8 @@ def oracle(case, out):
 
 def coq_case(case, out):
     term, ev, passes, cls, best, optimal = out[1]
+    if term == "FLOAT_TIE":
+        return None
     return "KEval %s %s %s" % (term, cseq(case[3]), civ(ev))
 
 
